@@ -123,3 +123,53 @@ Lemma tie_sq_cell23 ec l1 l2 ndim md ms pen ri_idx rw rwp s1 s2 wl (st : stw) ci
   c_dtw_warping_paths_ndim_loop23 ec l1 l2 ndim md ms pen ri_idx rw rwp s1 s2 wl st ci =
   k_wcell (wdok l1 l2 ndim s1 s2 ri_idx) (wdfun_sq l1 l2 ndim s1 s2 ri_idx) fdA fuA ec md ms pen rw rwp wl st ci.
 Proof. tie_cell tie_sq_d24. Qed.
+
+(* ------------------------------------------------------------------ the part after the row regions *)
+(* the text of dtw_warping_paths_ndim from `seq_t rvalue = 0` to the return statement (value scans with their
+   break, -1 marks, final comparison with the bound, sqrt pass), over the regenerated loop bodies; CWpsSpec.v shows
+   by reflexivity that the regenerated function ends with exactly this *)
+Definition k_wtail (call_dtw_wps_shift : Z -> Z) (return_dtw keep_int_repr psi_neg : bool) (l1 l2 p_width wps_len p_length : Z)
+  (p_max_dist : cost) (settings_psi_1e settings_psi_2e : Z) (ok : bool) (wps : list cost) : cret * list cost * bool :=
+let rvalue := (Fin 0) in
+let final_wpsi := (((l1 * p_width) + l2) - (call_dtw_wps_shift (l1 - 1))) in
+let '(ok, rvalue, wps) := (if ((return_dtw && (settings_psi_1e =? 0)) && (settings_psi_2e =? 0)) then (
+let ok := ok && inb wps_len final_wpsi in
+let rvalue := (aget wps final_wpsi) in
+(ok, rvalue, wps)) else (
+let '(ok, rvalue, wps) := (if return_dtw then (
+let mir_value := Inf in
+let mir_rel := l1 in
+let mic_value := Inf in
+let mic := l2 in
+let '(mir_rel, mir_value, ok) := (if (negb (settings_psi_1e =? 0)) then (
+let '(mir_rel, mir_value, ok, _) := fold_left (c_dtw_warping_paths_ndim_loop26 call_dtw_wps_shift settings_psi_1e l1 l2 p_width wps wps_len) (zdown l1 0) (mir_rel, mir_value, ok, false) in
+(mir_rel, mir_value, ok)) else (
+(mir_rel, mir_value, ok))) in
+let '(mic, mic_value, ok) := (if (negb (settings_psi_2e =? 0)) then (
+let '(mic, mic_value, ok, _) := fold_left (c_dtw_warping_paths_ndim_loop27 call_dtw_wps_shift settings_psi_2e l1 l2 p_width wps wps_len) (zdown l2 0) (mic, mic_value, ok, false) in
+(mic, mic_value, ok)) else (
+(mic, mic_value, ok))) in
+let '(ok, rvalue, wps) := (if (cltb mir_value mic_value) then (
+let '(ok, wps) := (if psi_neg then (
+let '(ok, wps) := fold_left (c_dtw_warping_paths_ndim_loop28 call_dtw_wps_shift l2 p_width wps_len) (zrange (mir_rel + 1) (l1 + 1)) (ok, wps) in
+(ok, wps)) else (
+(ok, wps))) in
+let rvalue := mir_value in
+(ok, rvalue, wps)) else (
+let '(ok, wps) := (if psi_neg then (
+let '(ok, wps) := fold_left (c_dtw_warping_paths_ndim_loop29 call_dtw_wps_shift l1 p_width wps_len) (zrange (mic + 1) (l2 + 1)) (ok, wps) in
+(ok, wps)) else (
+(ok, wps))) in
+let rvalue := mic_value in
+(ok, rvalue, wps))) in
+(ok, rvalue, wps)) else (
+let rvalue := (Fin (- 1)) in
+(ok, rvalue, wps))) in
+(ok, rvalue, wps))) in
+let rvalue := (if (cltb p_max_dist rvalue) then Inf else rvalue) in
+let '(ok, rvalue, wps) := (if (negb keep_int_repr) then (
+let '(ok, wps) := fold_left (c_dtw_warping_paths_ndim_loop30 wps_len) (zrange 0 p_length) (ok, wps) in
+let rvalue := (if return_dtw then (if (cltb (Fin 0) rvalue) then (csqrt rvalue) else rvalue) else rvalue) in
+(ok, rvalue, wps)) else (
+(ok, rvalue, wps))) in
+(RPlain rvalue, wps, ok).
